@@ -57,6 +57,10 @@ def gen_vhd(rng):
     if rng.random() < 0.4:
         # a resized disk: "current size" differs from the size at offset 40
         p['cur_size'] = interesting_size(rng)
+    if rng.random() < 0.6:
+        # creator application (Virtual PC, qemu, XenServer, disk2vhd, ...)
+        p['creator'] = rng.choice(('win ', 'qemu', 'qem2', 'vpc ', 'd2v ',
+                                   'CTXS', 'tap\x00', 'vbox'))
     return p
 
 
@@ -104,6 +108,8 @@ def gen_vhdx(rng, big_tables=True):
             p['item_offset'] = rng.choice((0, 8, 32, entries - 1,
                                            entries - 8, entries // 2))
     p['tail'] = rng.choice((0, 1, 512, 5000, 70000))
+    if p['m_after'] and rng.random() < 0.15:
+        p['user_dup'] = rng.randint(1, min(2, p['m_after']))
     p['fill'] = rng.choice(('zero', 'zero', 'rand:%d' % rng.randrange(999),
                             'inc'))
     p['guid_seed'] = rng.randrange(1 << 20)
